@@ -15,8 +15,16 @@
 // specific language governing permissions and limitations
 // under the License.
 
+#[cfg(not(datafusion_verif))]
 use parking_lot::RwLock;
+#[cfg(not(datafusion_verif))]
 use std::sync::atomic::{AtomicU64, Ordering};
+
+#[cfg(datafusion_verif)]
+use crate::verif_shims::{
+    RwLock,
+    atomic::{AtomicU64, Ordering},
+};
 use std::{fmt::Display, hash::Hash, sync::Arc};
 use tokio::sync::watch;
 
